@@ -200,7 +200,7 @@ func init() {
 				defer wg.Done()
 				defer func() { <-sem }()
 				out := filepath.Join(c.S.Dir, fmt.Sprintf("faults%d.ndjson", i))
-				args := []string{"faults", "--type", t.Name, "--n", fmt.Sprint(c.pick(6, 60)), "--seed", fmt.Sprint(c.Seed*100 + int64(i)), "--out", out}
+				args := []string{"faults", "--type", t.Name, "--n", fmt.Sprint(c.pick(6, 150)), "--seed", fmt.Sprint(c.Seed*100 + int64(i)), "--out", out}
 				if c.Thorough() {
 					args = append(args, "--double")
 				}
